@@ -419,13 +419,17 @@ def main():
                 if not ok:
                     problems.append({"kind": "tie", "what": "translator failed", "detail": out[-2000:]})
             okc, failed, errs = build_coq(log)
-            needed = ["Props/%s.vo" % pid, "Extract/Extract.vo"]
+            extra_props = P.get("extra_props", [])
+            needed = ["Props/%s.vo" % pid, "Extract/Extract.vo"] + ["Props/%s.vo" % x for x in extra_props]
             for nf in needed:
                 if not os.path.exists(os.path.join(COQ, nf)) or any(nf == f for f in failed):
                     problems.append({"kind": "proof", "what": "%s does not compile" % nf, "detail": json.dumps(errs)[:3000]})
             if not okc and not any(p["kind"] == "proof" for p in problems):
                 # something this property depends on may have failed: check dependency closure
-                dep_failed = [f for f in failed if f[:-3] + ".v" in deps_of(pid)]
+                deps = deps_of(pid)
+                for x in extra_props:
+                    deps |= deps_of(x)
+                dep_failed = [f for f in failed if f[:-3] + ".v" in deps]
                 if dep_failed:
                     problems.append({"kind": "proof", "what": "dependencies fail: %s" % dep_failed, "detail": json.dumps(errs)[:3000]})
             bad = audit_sources()
@@ -440,9 +444,21 @@ def main():
             if not proof["ok"]:
                 problems.append({"kind": "proof", "what": "Props/%s.v: rc=%d closed=%d/%d axioms=%s" % (
                     pid, proof["rc"], proof["closed"], proof["prints"], proof["axioms"]), "detail": proof["out"]})
-            elif tier == "thorough":
+            # supporting theorem files this property's argument rests on (e.g. Props/Link.v)
+            for x in P.get("extra_props", []):
+                px = check_props_file(x, log)
+                if not px["ok"]:
+                    problems.append({"kind": "proof", "what": "Props/%s.v: rc=%d closed=%d/%d axioms=%s" % (
+                        x, px["rc"], px["closed"], px["prints"], px["axioms"]), "detail": px["out"]})
+                    proof["ok"] = False
+                proof["theorems"] += ["%s.%s" % (x, t) for t in px["theorems"]]
+                proof["examples"] += ["%s.%s" % (x, t) for t in px["examples"]]
+                proof["prints"] += px["prints"]
+                proof["closed"] += px["closed"]
+                proof["axioms"] = sorted(set(proof["axioms"]) | set(px["axioms"]))
+            if proof["ok"] and tier == "thorough":
                 # independent re-check of the compiled theorems and everything they depend on
-                rc, out, dt = sh(["coqchk", "-silent", "-o", "-Q", ".", "RW", "RW.Props.%s" % pid], cwd=COQ, timeout=3000)
+                rc, out, dt = sh(["coqchk", "-silent", "-o", "-Q", ".", "RW", "RW.Props.%s" % pid] + ["RW.Props.%s" % x for x in P.get("extra_props", [])], cwd=COQ, timeout=3000)
                 log["coqchk_s"] = round(dt, 1)
                 m = re.search(r"\* Axioms:\s*(.*?)\n\s*\n", out, flags=re.S)
                 log["coqchk_axioms"] = (m.group(1).strip() if m else "?")
